@@ -234,7 +234,20 @@ func c15StartClose(p *load.Program, r *oblig.Report) {
 			}
 		}
 	}
-	r.Check(okWait, rule, "Generation.close waits for every started function", p.Pos(cl.Pos()), "r := g.routines (locked); if r > 0 { <-g.joined }", "not recognised")
+	dbg := "not recognised"
+	if wait != nil {
+		for _, pred := range wait.Block().Preds {
+			if _, ci := an.IfCond(pred); ci != nil {
+				dbg += fmt.Sprintf(" [test %s %s %s; %T; lockset %s]", argDesc(ci.X), ci.Op, argDesc(ci.Y), ci.X, func() string {
+					if ld, ok := ci.X.(*ssa.UnOp); ok {
+						return l.Before[ld].String()
+					}
+					return "-"
+				}())
+			}
+		}
+	}
+	r.Check(okWait, rule, "Generation.close waits for every started function", p.Pos(cl.Pos()), "r := g.routines (locked); if r > 0 { <-g.joined }", dbg)
 	// close(): no return before the wait decision (no early exit when already closed)
 	nRet := 0
 	an.EachInstr(cl, func(ins ssa.Instruction) {
